@@ -372,6 +372,45 @@ func checkC02(e *env) {
 			}
 			if !ok {
 				r.Dist["snap:some-part-collapses(second sentence not applicable)"]++
+				// ring by ring (C02_second_sentence_ring): a ring whose own chain has at least three pixels and visits none twice comes out of the
+				// clean-up as exactly that chain, whatever happens to the other rings; unless another ring has the same set of pixels (equal rings
+				// cancel in the assembly) it must be among the rings returned for the level, in one direction or the other
+				pixset := func(cr ring) string {
+					ks := make([]string, 0, len(cr))
+					seen := map[ipt]bool{}
+					for _, p := range cr {
+						if !seen[p] {
+							seen[p] = true
+							ks = append(ks, fmt.Sprintf("%d,%d", p.x, p.y))
+						}
+					}
+					sort.Strings(ks)
+					return strings.Join(ks, " ")
+				}
+				sets := map[string]int{}
+				for _, cr := range ch {
+					sets[pixset(cr)]++
+				}
+				for i, cr := range ch {
+					if len(cr) < 3 || maxVisits([]ring{cr}) != 1 || sets[pixset(cr)] != 1 {
+						continue
+					}
+					r.Dist["snap:ring-without-collapse-in-a-collapsing-polygon"]++
+					found := false
+					rev := append(ring{}, cr...)
+					reverseRing(rev)
+					for _, pg := range sr.levels[l] {
+						for _, rg := range pg {
+							if sameCyclic(rg, cr) || sameCyclic(rg, rev) {
+								found = true
+							}
+						}
+					}
+					if !found {
+						e.snapViolation("non-collapsing-ring-is-the-concatenation-of-its-routed-edges", c, sr, fmt.Sprintf("level %d: ring %d does not come back as its chain of routed edges %s", l, i, fmtRing(cr)), "")
+						return
+					}
+				}
 				continue
 			}
 			r.Dist["snap:no-collapse(second sentence applies)"]++
